@@ -53,7 +53,7 @@ def _load_impls(sub):
     from vf import build
 
     sub.hm = hm
-    sub.world = SymWorld(overrides={"whatshap.core": core_model, "whatshap.cli": hm.cli_stub()})
+    sub.world = SymWorld(overrides={"whatshap.core": core_model, "whatshap.cli": hm.cli_stub()}, transformer=hm.strip_logging)
     ht = sub.world.load("whatshap.cli.haplotag")
     vcf = sub.world.load("whatshap.vcf")
     sub.sym = _Impl(core_model, vcf, ht, hm.make_sym_aln, True)
@@ -153,7 +153,7 @@ class Decide(SubCheck):
         "the read set handed out by PhasedInputReader.read() holds, per read, alleles 0/1 at (a subset of) exactly the variants it was asked for (contract of ReadSetReader; allele detection itself is C06)",
         "allele qualities are integers >= 0",
     ]
-    stubs = ["vf/models/haplotag_model.py Reader (PhasedInputReader) and Aln (pysam.AlignedSegment; the replay uses real pysam.AlignedSegment objects)", "vf/models/core_model.py in place of compiled whatshap.core (replay uses the compiled classes)"]
+    stubs = ["logger.debug/info/warning statements are removed from the symbolic encoding (their eager str.format would concretise symbolic qualities); the replay runs them", "vf/models/haplotag_model.py Reader (PhasedInputReader) and Aln (pysam.AlignedSegment; the replay uses real pysam.AlignedSegment objects)", "vf/models/core_model.py in place of compiled whatshap.core (replay uses the compiled classes)"]
     required_cover = [
         "tagged H1", "tagged H2", "tie stays untagged", "read without phased heterozygous variant stays untagged", "read spans two phase sets",
         "stale-free alignment gets HP/PS/PC", "swap changes HP", "swap leaves other phase set alone", "ploidy 3 tagged H3",
@@ -181,7 +181,7 @@ class Decide(SubCheck):
 
     def bounds(self, tier):
         return ("one read over V <= %d variants (ploidy 2) / V <= %d (ploidy 3) in <= 2 phase sets (every assignment of variants to phase sets, every covered subset); "
-                "symbolic: phased alleles of every haplotype, observed allele and quality (0..4) of every covered variant, one variant (any for V <= 2, the middle one otherwise) optionally unphased / homozygous / homozygous-with-phase-entry, "
+                "symbolic: phased alleles of every haplotype, observed allele and quality (0..4) of every covered variant, one variant (any for V <= 3, the middle one for V = 4) optionally unphased / homozygous / homozygous-with-phase-entry, "
                 "which phase set is swapped" % ((3, 2) if tier == "quick" else (4, 3)))
 
     def setup(self):
@@ -203,7 +203,7 @@ class Decide(SubCheck):
         positions = [100 * (i + 1) for i in range(V)]
         triples = _het_triples(ploidy)
         phases = [list(e.choice("phase%d" % i, triples)) for i in range(V)]
-        odd_at = range(V) if V <= 2 else [V // 2]
+        odd_at = range(V) if V <= 3 else [V // 2]
         odd = e.choice("odd", [None] + [(i, k) for i in odd_at for k in ("unph", "hom", "homph")])
         kinds = ["het"] * V
         if odd is not None:
@@ -287,14 +287,14 @@ class Linked(SubCheck):
                 subs = [c for c in itertools.product((0, 1), repeat=V) if sum(c) >= 1]
                 for c0 in subs:
                     for c1 in subs:
-                        if sum(c0) + sum(c1) > (3 if (tier == "quick" or V == 3) else 4):
+                        if sum(c0) + sum(c1) > (4 if V == 2 else 3 if tier == "quick" else 4):
                             continue
                         out.append(dict(V=V, psidx=list(psidx), cover=[list(c0), list(c1)]))
         return out
 
     def bounds(self, tier):
         return ("two reads + one variant-free alignment, V %s diploid variants in <= 2 phase sets, every covered subset per read with at most %d covered variants in total; phased alleles 0|1; symbolic: observed alleles, qualities 0..3, "
-                "barcodes (same / different / second read without / same with --ignore-linked-read), reference starts and the distance cut-off (0..6), order of the two reads" % (("= 2", 3) if tier == "quick" else ("<= 3", 4)))
+                "barcodes (same / different / second read without / same with --ignore-linked-read), reference starts and the distance cut-off (0..6), order of the two reads" % (("= 2", 4) if tier == "quick" else ("<= 3", 4)))
 
     setup = Decide.setup
     sym_impl = Decide.sym_impl
@@ -412,21 +412,22 @@ class Loop(SubCheck):
 
     def shapes(self, tier):
         out = []
-        n = 3 if tier == "quick" else 4
         others = "MSXQDU"
-        regs = [None, ["chr1:1-125", "chr1:126-400"]] if tier == "quick" else [None, ["chr1:1-125"], ["chr1:1-125", "chr1:126-400"], ["chr1:120-400", "chr1:1-130"]]
-        for ppos in range(n):
-            for rest in itertools.product(others, repeat=n - 1):
-                roles = list(rest[:ppos]) + ["P"] + list(rest[ppos:])
-                for r in regs:
-                    out.append(dict(roles="".join(roles), regions=r))
+        two = ["chr1:1-125", "chr1:126-400"]
+        plan = [(3, [None, ["chr1:1-125"], two])] if tier == "quick" else [(3, [None, ["chr1:1-125"], two, ["chr1:120-400", "chr1:1-130"]]), (4, [None, two])]
+        for n, regs in plan:
+            for ppos in range(n):
+                for rest in itertools.product(others, repeat=n - 1):
+                    roles = list(rest[:ppos]) + ["P"] + list(rest[ppos:])
+                    for r in regs:
+                        out.append(dict(roles="".join(roles), regions=r))
         return out
 
     def bounds(self, tier):
         sh = self.shapes(tier)
-        return ("%d scenarios: %d placed records (one primary of read rA at every index, the others out of second mate / supplementary / secondary of rA, primary of read rB, duplicate-flagged primary, placed unmapped) "
+        return ("%d scenarios: up to %d placed records (one primary of read rA at every index, the others out of second mate / supplementary / secondary of rA, primary of read rB, duplicate-flagged primary, placed unmapped) "
                 "followed by one unplaced unmapped record; regions %s; symbolic: --tag-supplementary, stale HP/PS/PC on all records or none, observed alleles and qualities (0..3) of rA (2 variants) and rB (1 variant)"
-                % (len(sh), len(sh[0]["roles"]), sorted(set(str(s["regions"]) for s in sh))))
+                % (len(sh), max(len(s["roles"]) for s in sh), sorted(set(str(s["regions"]) for s in sh))))
 
     setup = Decide.setup
     sym_impl = Decide.sym_impl
